@@ -93,6 +93,7 @@ type RInput struct {
 	Finalizer       bool    `json:"finalizer"`
 	Generation      int     `json:"generation"`
 	RollbackInBatch bool    `json:"rollback_in_batch"`
+	BlueGreen       bool    `json:"bluegreen,omitempty"` // blue-green strategy instead of canary (engine rolloutbg)
 	FT              *IOS    `json:"ft,omitempty"`
 	Status          RStatus `json:"status"`
 	W               RWl     `json:"w"`
@@ -385,6 +386,9 @@ func buildBR(in RInput, b *RBr) *v1beta1.BatchRelease {
 		p.FailureThreshold = ptrIOS(b.FT.K8s())
 	}
 	p.RollingStyle = v1beta1.PartitionRollingStyle
+	if in.BlueGreen {
+		p.RollingStyle = v1beta1.BlueGreenRollingStyle
+	}
 	p.FinalizingPolicy = v1beta1.FinalizingPolicyType(b.Policy)
 	if b.RollbackAnno {
 		br.Annotations = map[string]string{v1alpha1.RollbackInBatchAnnotation: "true"}
@@ -509,6 +513,19 @@ func buildRolloutObjects(in RInput, ext *TRExt) ([]client.Object, *v1beta1.Rollo
 	}
 	ro.Spec.Strategy.Canary = canary
 	curHash := rolloutHash(canary.Steps, canary)
+	if in.BlueGreen {
+		ro.Spec.Strategy.Canary = nil
+		ro.Spec.Strategy.BlueGreen = &v1beta1.BlueGreenStrategy{Steps: canary.Steps, TrafficRoutings: canary.TrafficRoutings, FailureThreshold: canary.FailureThreshold}
+		bg := ro.Spec.Strategy.BlueGreen.DeepCopy()
+		bg.FailureThreshold = nil
+		bg.Steps = nil
+		for i := range canary.Steps {
+			step := canary.Steps[i].DeepCopy()
+			step.Pause = v1beta1.RolloutPause{}
+			bg.Steps = append(bg.Steps, *step)
+		}
+		curHash = k8srand.SafeEncodeString(util.EncodeHash(util.DumpJSON(bg)))
+	}
 	ro.Annotations[util.RolloutHashAnnotation] = curHash
 	if in.RollbackInBatch {
 		ro.Annotations[v1alpha1.RollbackInBatchAnnotation] = "true"
@@ -560,6 +577,12 @@ func buildRolloutObjects(in RInput, ext *TRExt) ([]client.Object, *v1beta1.Rollo
 			CurrentStepState: v1beta1.CanaryStepState(s.State), FinalisingStep: v1beta1.FinalisingStepType(s.Fin), LastUpdateTime: &t},
 			CanaryRevision: s.CanaryRev, CanaryReplicas: int32(s.CReplicas), CanaryReadyReplicas: int32(s.CReady)}
 		ro.Status.CurrentStepIndex, ro.Status.CurrentStepState = int32(s.Idx), v1beta1.CanaryStepState(s.State)
+		if in.BlueGreen {
+			cs := ro.Status.CanaryStatus
+			ro.Status.BlueGreenStatus = &v1beta1.BlueGreenStatus{CommonStatus: cs.CommonStatus, UpdatedRevision: cs.CanaryRevision, UpdatedReplicas: cs.CanaryReplicas,
+				UpdatedReadyReplicas: cs.CanaryReadyReplicas}
+			ro.Status.CanaryStatus = nil
+		}
 	}
 	objs := []client.Object{ro}
 	if in.W.Exists {
@@ -628,6 +651,9 @@ func reconcileRolloutWorld(in RInput, ext *TRExt, objs []client.Object, ro *v1be
 		}
 		if c := util.GetRolloutCondition(s, v1beta1.RolloutConditionSucceeded); c != nil {
 			o.Succ = string(c.Status)
+		}
+		if bg := s.BlueGreenStatus; bg != nil && s.CanaryStatus == nil {
+			s.CanaryStatus = &v1beta1.CanaryStatus{CommonStatus: bg.CommonStatus, CanaryRevision: bg.UpdatedRevision, CanaryReplicas: bg.UpdatedReplicas, CanaryReadyReplicas: bg.UpdatedReadyReplicas}
 		}
 		if cs := s.CanaryStatus; cs != nil {
 			h := ""
